@@ -537,3 +537,287 @@ def attachments_paired_by_position(report, repo, rule):
                'by position (%s): every record of a REPEATed phase gets the '
                'attachments of one of its runs' %
                ('by descriptor_id' if keyed else 'no zip of the two lists'))
+
+
+# ---- round 6 (a second, smaller "outside the central function" round)
+
+
+def monitored_phase_returns_result(report, repo, rule):
+  report.rule(rule, 'T-RET: the wrapper built by monitors.monitors returns '
+              'what the wrapped phase returned (FAIL_AND_CONTINUE / STOP / '
+              'FAIL_SUBTEST must reach the executor)')
+  f = repo.func(MO, 'monitors')
+  wraps = [n for n in ast.walk(f.node) if isinstance(n, ast.FunctionDef) and
+           n is not f.node and any(
+               isinstance(c, ast.Call) and isinstance(c.func, ast.Name) and
+               c.func.id == 'phase_desc' for c in ast.walk(n)) and
+           not any(isinstance(m, ast.FunctionDef) and m is not n
+                   for m in ast.walk(n))]
+  report.expect_instances(rule, len(wraps), 1, 'monitored phase wrappers')
+  w = wraps[0]
+  calls = [c for c in ast.walk(w) if isinstance(c, ast.Call) and isinstance(
+      c.func, ast.Name) and c.func.id == 'phase_desc']
+  rets = [r for r in ast.walk(w) if isinstance(r, ast.Return) and
+          r.value is not None]
+  names = {t.id for a in ast.walk(w) if isinstance(a, ast.Assign) and any(
+      a.value is c for c in calls) for t in a.targets
+           if isinstance(t, ast.Name)}
+  ok = len(calls) == 1 and any(
+      r.value is calls[0] or (isinstance(r.value, ast.Name) and
+                              r.value.id in names) for r in rets)
+  report.check(ok, rule, 'monitors.' + w.name, 'returns-phase-result', w,
+               'return phase_desc(test_state, ...)',
+               'the monitoring wrapper drops the wrapped phase\'s return value: '
+               'a monitored phase that returns FAIL_AND_CONTINUE / STOP / '
+               'FAIL_SUBTEST is executed as CONTINUE (false PASS)')
+
+
+def first_terminal_outcome_wins(report, repo, rule):
+  report.rule(rule, 'T-DOM: TestExecutor._execute_phase / _execute_checkpoint '
+              'remember a terminal outcome only when none is remembered yet '
+              '(the first terminal event decides; a later failing teardown '
+              'phase does not replace a TIMEOUT)')
+  n = 0
+  for q in ('TestExecutor._execute_phase', 'TestExecutor._execute_checkpoint'):
+    f = repo.func(TE, q)
+    g = lib.cfg(f)
+    for node in g.nodes:
+      if node.kind == 'stmt' and isinstance(node.ast, ast.Assign) and any(
+          dotted(t) == 'self._last_outcome' for t in node.ast.targets):
+        n += 1
+
+        def none_yet(s, l, d):
+          if s.kind != 'test':
+            return False
+          e, want = s.ast, 'F'
+          if isinstance(e, ast.UnaryOp) and isinstance(e.op, ast.Not):
+            e, want = e.operand, 'T'
+          if dotted(e) == 'self._last_outcome':
+            return l == want
+          if isinstance(e, ast.Compare) and len(e.ops) == 1 and dotted(
+              e.left) == 'self._last_outcome' and isinstance(
+                  e.comparators[0], ast.Constant) and \
+              e.comparators[0].value is None:
+            return l == ('T' if isinstance(e.ops[0], ast.Is) else 'F')
+          return False
+        report.check(g.dominated_by_edge(node, none_yet), rule, f.qualname,
+                     'first-wins:' + norm(node.ast)[:40], node.ast,
+                     'stored only while no outcome is remembered',
+                     '%s overwrites an already remembered terminal outcome: '
+                     'the last terminal phase decides instead of the first '
+                     '(a TIMEOUT followed by a raising teardown becomes ERROR)'
+                     % f.qualname)
+  report.expect_instances(rule, n, 2, '_last_outcome stores in phase/checkpoint')
+
+
+def start_time_recorded_once(report, repo, rule):
+  report.rule(rule, 'T-WHO: PhaseRecord.record_start_time() is called once per '
+              'invocation, where the phase state\'s cached view is built '
+              '(PhaseState.__attrs_post_init__): a later call would leave the '
+              'live view with a stale start time')
+  n = 0
+  for m, c in core.call_sites(repo, attr='record_start_time'):
+    if m.relpath.startswith('openhtf/util/test'):
+      continue
+    n += 1
+    owner = core.owner_qualname(c)
+    report.check(m.relpath == TS and owner.startswith('PhaseState.'), rule,
+                 owner, 'record_start_time', c,
+                 'start time recorded while the cached view is built',
+                 '%s::%s records the start time again: the snapshot served by '
+                 'as_base_types() keeps the earlier value' % (m.relpath, owner))
+  report.expect_instances(rule, n, 1, 'record_start_time call sites')
+
+
+def attr_copy_overrides_by_init_name(report, repo, rule):
+  report.rule(rule, 'T-AGREE: data.attr_copy skips a field when its *init* name '
+              '(leading underscore stripped) is among the overrides, the same '
+              'name it passes the copied value under')
+  DA = 'openhtf/util/data.py'
+  f = repo.func(DA, 'attr_copy')
+  g = lib.cfg(f)
+  ov = f.node.args.kwarg.arg if f.node.args.kwarg else 'overrides'
+  tests = [n for n in g.nodes if n.kind == 'test' and isinstance(
+      n.ast, ast.Compare) and len(n.ast.ops) == 1 and isinstance(
+          n.ast.ops[0], (ast.In, ast.NotIn)) and core.is_name(
+              n.ast.comparators[0], ov)]
+  report.expect_instances(rule, len(tests), 1, 'override membership tests')
+  stores = [n for n in g.nodes if n.kind == 'stmt' and isinstance(
+      n.ast, ast.Assign) and isinstance(n.ast.targets[0], ast.Subscript) and
+            dotted(n.ast.targets[0].value) == 'kwargs']
+  report.expect_instances(rule, len(stores), 1, 'kwargs stores')
+
+  def key_text(node, e):
+    vals = lib.value_exprs(g, node, e) if isinstance(e, ast.Name) else [e]
+    return sorted(norm(v) for v in vals)
+  a = key_text(tests[0], tests[0].ast.left)
+  b = key_text(stores[0], stores[0].ast.targets[0].slice)
+  report.check(a == b and not all(
+      isinstance(x, str) and x.endswith('.name') for x in a), rule,
+               f.qualname, 'same-key', tests[0].ast,
+               'the override test and the keyword use the same init name',
+               'attr_copy tests %s against the overrides but passes the value '
+               'as %s: an override of a private field (cached=None) is not '
+               'recognised and the copy keeps the original\'s value' % (a, b))
+
+
+def plug_types_from_every_phase(report, repo, rule):
+  report.rule(rule, 'T-LOOP: TestDescriptor.plug_types collects plug.cls of '
+              'every plug of every phase (no phase is skipped): a with_plugs '
+              'copy of the same function may need another plug class')
+  f = repo.func(TD, 'TestDescriptor.plug_types')
+  bad = [n for n in walk_no_nested(f.node) if isinstance(
+      n, (ast.Continue, ast.Break))]
+  comps = [g_ for n in ast.walk(f.node) if isinstance(
+      n, (ast.SetComp, ast.ListComp, ast.GeneratorExp)) for g_ in n.generators
+           if g_.ifs]
+  fors = [n for n in walk_no_nested(f.node) if isinstance(n, ast.For)]
+  guarded = [n for lp in fors for n in walk_no_nested(lp)
+             if isinstance(n, ast.If)]
+  report.check(not bad and not comps and not guarded, rule, f.qualname,
+               'no-filter', f.node, 'every phase contributes its plug classes',
+               'plug_types skips some phases (%s): a plug class needed only by '
+               'a skipped phase copy is never constructed and that phase '
+               'fails at plug injection' % norm((bad + guarded or [f.node])[0])[
+                   :60])
+
+
+def connection_keeps_device_maxdata(report, repo, rule):
+  report.rule(rule, 'T-AGREE: AdbConnection.__init__ stores the maxdata it is '
+              'given (what the device advertised in its CNXN) unchanged')
+  f = repo.func(AP, 'AdbConnection.__init__')
+  a = [n for n in walk_no_nested(f.node) if isinstance(n, ast.Assign) and
+       dotted(n.targets[0]) == 'self.maxdata']
+  params = lib.param_names(f.node)
+  ok = len(a) == 1 and isinstance(a[0].value, ast.Name) and \
+      a[0].value.id in params
+  report.check(ok, rule, f.qualname, 'maxdata', a[0] if a else f.node,
+               'self.maxdata = <parameter>',
+               'AdbConnection changes the maxdata taken from the device\'s '
+               'CNXN (%s): connect() no longer records what the device '
+               'advertised' % (norm(a[0].value) if a else 'not stored'))
+
+
+def top_logger_level_is_debug(report, repo, rule):
+  report.rule(rule, 'T-CONST: logs.configure_logging sets the level of the '
+              'top-level openhtf logger to logging.DEBUG only (the CLI '
+              'verbosity belongs on the CLI handler): records below the CLI '
+              'verbosity still reach the per-run record handler')
+  f = repo.func(LG, 'configure_logging')
+  top = lib.local_from(f, lambda e: isinstance(e, ast.Call) and call_name(
+      e) == 'logging.getLogger' and e.args and (
+          dotted(e.args[0]) == 'LOGGER_PREFIX' or core.const_str(
+              e.args[0]) == 'openhtf'), 'htf_logger')
+  n = 0
+  for c in core.calls_in(f.node, attr='setLevel'):
+    if dotted(c.func.value) == top:
+      n += 1
+      report.check(c.args and dotted(c.args[0]) == 'logging.DEBUG', rule,
+                   f.qualname, 'top-level:' + norm(c)[:40], c,
+                   'the openhtf logger passes everything on',
+                   'the top-level logger is given the level %s: with -v the '
+                   'DEBUG records of a run never reach its log_records' %
+                   (norm(c.args[0]) if c.args else '?'))
+  report.expect_instances(rule, n, 1, 'setLevel on the top-level logger')
+
+
+def mac_filter_looks_at_formatted_message(report, repo, rule):
+  report.rule(rule, 'T-DOM: MacAddressLogFilter.filter decides on the formatted '
+              'message (record.getMessage()): nothing returns before that '
+              'search (a MAC passed as a %-argument must be redacted too)')
+  f = repo.func(LG, 'MacAddressLogFilter.filter')
+  g = lib.cfg(f)
+  searches = [n for n in g.nodes if any(
+      isinstance(s, ast.Call) and last_attr(s) == 'search' and any(
+          isinstance(x, ast.Call) and last_attr(x) == 'getMessage'
+          for x in ast.walk(s)) for s in n.subnodes())]
+  report.expect_instances(rule, len(searches), 1, 'searches of getMessage()')
+  rets = [n for n in g.nodes if n.kind == 'stmt' and isinstance(n.ast,
+                                                                ast.Return)]
+  ok = all(g.dominated_by(r, lambda n: n is searches[0]) for r in rets)
+  report.check(ok, rule, f.qualname, 'search-before-return', f.node,
+               'every return comes after the search of the formatted message',
+               'filter() can return before looking at the formatted message '
+               '(a pre-check on the template): a MAC address supplied only as '
+               'an argument is recorded unredacted')
+
+
+def conversion_does_not_sort(report, repo, rule):
+  report.rule(rule, 'T-TOTAL: data.convert_to_base_types does not order the '
+              'items of a dict (sorted() raises TypeError for keys that do not '
+              'compare; the conversion runs on the executor thread when a '
+              'phase record is closed)')
+  f = repo.func('openhtf/util/data.py', 'convert_to_base_types')
+  bad = [c for c in core.calls_in(f.node) if call_name(c) == 'sorted' or
+         last_attr(c) == 'sort']
+  report.check(not bad, rule, f.qualname, 'no-sort', bad[0] if bad else f.node,
+               'items are converted in their own order',
+               'convert_to_base_types sorts (%s): a dict with keys of mixed '
+               'types makes the conversion raise on the executor thread, the '
+               'error escapes the phase context and the group\'s teardown is '
+               'skipped' % (norm(bad[0])[:50] if bad else ''))
+
+
+def every_join_is_bounded(report, repo, rule):
+  report.rule(rule, 'T-CONST: every self.join(...) in '
+              'PhaseExecutorThread.join_or_die has a finite constant timeout '
+              '(a phase option can be None = wait forever)')
+  f = repo.func(PE, 'PhaseExecutorThread.join_or_die')
+  m = repo.module(PE)
+  n = 0
+  for j in core.calls_in(f.node, name='self.join'):
+    n += 1
+    a = j.args[0] if j.args else core.get_kw(j, 'timeout')
+    fin = False
+    if isinstance(a, ast.Constant) and isinstance(a.value, (int, float)):
+      fin = a.value > 0
+    elif isinstance(a, ast.Name) and a.id in m.constants:
+      c = m.constants[a.id]
+      fin = isinstance(c, ast.Constant) and isinstance(
+          c.value, (int, float)) and c.value > 0
+    report.check(fin, rule, f.qualname, 'join:' + norm(j)[:40], j,
+                 'bounded by a positive constant',
+                 'join_or_die waits with %s: for a phase without an explicit '
+                 'timeout that is join(None), the executor blocks for ever on '
+                 'a body that never returns and no teardown runs' % norm(j))
+  report.expect_instances(rule, n, 1, 'joins in join_or_die')
+
+
+def with_validator_always_appends(report, repo, rule):
+  report.rule(rule, 'T-MUST: Measurement.with_validator appends every '
+              'validator it is given (no de-duplication through the '
+              'validators\' loose __eq__): a stricter validator that compares '
+              'equal to an attached one must still be applied')
+  f = repo.func(ME, 'Measurement.with_validator')
+  g = lib.cfg(f)
+  apps = [n for n, c in lib.nodes_with_call(g, attr='append')
+          if dotted(c.func.value) == 'self.validators']
+  report.expect_instances(rule, len(apps), 1, 'validator appends')
+  guarded = g.dominated_by_edge(
+      apps[0], lambda s, l, d: s.kind == 'test' and isinstance(
+          s.ast, ast.Compare) and isinstance(s.ast.ops[0], (ast.In, ast.NotIn))
+      and dotted(s.ast.comparators[0]) == 'self.validators')
+  report.check(not guarded, rule, f.qualname, 'append-unconditional',
+               apps[0].ast, 'the validator is appended whatever is attached',
+               'with_validator skips a validator that compares equal to one '
+               'already attached: validators\' __eq__ ignores e.g. regex flags '
+               'or types, so a stricter conditional validator is dropped and a '
+               'rejected value is recorded PASS')
+
+
+def callback_clearing_by_dimensions(report, repo, rule):
+  report.rule(rule, 'T-DOM: Measurement.set_notification_callback clears the '
+              'value holder\'s notify hook for every dimensioned measurement '
+              '(decided by self.dimensions, not by the current outcome): a '
+              'handle kept past its phase must not flip the finished record')
+  f = repo.func(ME, 'Measurement.set_notification_callback')
+  reads = [n for n in ast.walk(f.node) if isinstance(n, ast.Attribute) and
+           dotted(n) == 'self.outcome']
+  dims = [n for n in ast.walk(f.node) if isinstance(n, ast.Attribute) and
+          dotted(n) == 'self.dimensions']
+  report.check(not reads and bool(dims), rule, f.qualname, 'by-dimensions',
+               f.node, 'guarded by self.dimensions',
+               'the hook is cleared depending on the outcome (%s): a '
+               'dimensioned measurement not written during its phase keeps an '
+               'armed hook after the phase is finalised' %
+               ('reads self.outcome' if reads else 'no self.dimensions test'))
